@@ -17,6 +17,7 @@ CORPUS = [
     ('$power(-8, 1/3)', None), ('$sqrt(-1)', None), ('1/0', None), ('-1/0', None), ('0/0', None), ('$number("1e999")', None), ('[1..1e8]', None), ('$map([1,2], $map)', None),
     ('$reduce([1,2,3], $reduce)', None), ('$filter([1], $filter)', None), ('$sort([1,2], $sort)', None), ('$each({"a":1}, $each)', None), ('$sift({"a":1}, $sift)', None),
     ('$single([1], $single)', None), ('$map($map, $map)', None), ('null.a', {'a': 1}), ('a.null', {'a': 1}), ('$$.$$.$$', {'a': 1}), ('**.**.**', {'a': {'b': [1, {'c': 2}]}}),
+    ('$ ~> |$|{"self": $}|', {'a': 1}), ('$ ~> |a|{"up": $$}|', {'a': {'b': 1}}),
     ('*[0][0][0]', {'a': [[1]]}), ('$[0][0]', [[1]]), ('[[[]]][0][0][0]', None), ('{}[0]', None), ('{}.a.b.c', None), ('$keys({})', None), ('$merge([])', None), ('$spread([])', None),
 ]
 
